@@ -358,6 +358,9 @@ func checkC15(c *Ctx) {
 	// replacing it later makes IsOpen/Write/Flush vacuous successes (use after Close must fail)
 	c.checkSetOnlyAtConstruction("O5 fixed-destinations", pk, "TMultiUDPTransport", "transports")
 	c.checkSetOnlyAtConstruction("O5 fixed-destinations", pk, "TUDPTransport", "conn", "addr")
+	// the transport's buffer is its own: it is only ever appended to and reset, never replaced by
+	// storage the caller (or anyone else) keeps a reference to
+	c.checkSetOnlyAtConstruction("O2 own-buffer", pk, "TUDPTransport", "writeBuf")
 	c.checkMultiTransportCtor("O5 every-destination")
 
 	// ---- O6 Close ------------------------------------------------------------------------------------
